@@ -18,7 +18,7 @@ Import ListNotations.
 Require Import TV.Base.D8 TV.Model.ExactScalar.
 Open Scope Z_scope.
 
-Definition var := nat.
+Notation var := nat (only parsing).          (* a parameter name *)
 
 (* complex128 values the exact arithmetic does not see: 1.0, an arbitrary float, or a float times exp(i pi pn/pd) *)
 Inductive afac := AOne | AOpaque (id : Z) | ARot (f : afac) (pn : Z) (pd : positive).
@@ -55,6 +55,7 @@ Fixpoint bl_eqb (a b : list bool) : bool :=
   | _, _ => false
   end.
 Definition b2z (b : bool) : Z := if b then 1 else 0.
+Definition zsum (l : list Z) : Z := fold_right Z.add 0 l.
 
 (* ------------------------------------------------------------------ term lists per graph *)
 Definition aterm := (Z * list bool)%type.                         (* const phase (k of k pi/4), mask *)
@@ -183,3 +184,73 @@ Definition tbl_power2 c := map cg_power2 (c_graphs c).
 Definition tbl_floatfactor c := map cg_float (c_graphs c).
 (* per graph: is the approximate factor exactly 1.0 *)
 Definition tbl_approx_is_one c := map (fun g => afac_is_one (cg_approx g)) (c_graphs c).
+
+(* ================================================================== reference semantics and domain
+   `scalar_value` restates pyzx_param/graph/scalar.py::Scalar.evaluate_scalar, factor by factor and in the same order, in an
+   arbitrary commutative ring R with an element w (standing for e^{i pi/4}; the theorems assume w^4 = -1) and an element
+   `half` (assumed: half + half = 1).  `vals` is pyzx's `vals` dict restricted to 0/1 values (`vals["1"] = 1` is `side_sum`).
+   cexp(x) = e^{i pi x}: for x = e/4 with e >= 0 it is w^e (`cexp4 e`); the phase of the scalar is an arbitrary fraction n/d and
+   uses the abstract character `cexp n d` (the theorems assume cexp n 1 = w^(4n), cexp n 2 = w^(2n), cexp n 4 = w^n).
+   Floating-point numbers are opaque ring elements `opq i`. *)
+Section ScalarValue.
+  Variable R : Type.
+  Variables (rO rI : R) (radd rmul rsub : R -> R -> R) (ropp : R -> R).
+  Variable w : R.
+  Variable half : R.
+  Variable cexp : Z -> positive -> R.
+  Variable opq : Z -> R.
+
+  Fixpoint rpow (x : R) (n : nat) : R := match n with O => rI | S k => rmul x (rpow x k) end.
+  Fixpoint rprodl (l : list R) : R := match l with [] => rI | x :: r => rmul x (rprodl r) end.
+  Fixpoint rsuml (l : list R) : R := match l with [] => rO | x :: r => radd x (rsuml r) end.
+  (* b^n for an integer n, given the inverse bi of b *)
+  Definition zpow (b bi : R) (n : Z) : R := if 0 <=? n then rpow b (Z.to_nat n) else rpow bi (Z.to_nat (- n)).
+  Definition r2 : R := radd rI rI.
+  Definition pow2 (n : Z) : R := zpow r2 half n.                              (* 2^n *)
+  Definition sqrt2 : R := rsub w (rmul w (rmul w w)).                         (* w + conj(w) = w - w^3 *)
+  Definition sqrt2pow (n : Z) : R := zpow sqrt2 (rmul sqrt2 half) n.          (* sqrt(2)^n *)
+  Definition cexp4 (e : Z) : R := wpow R rI rmul w (Z.to_nat e).              (* e^{i pi e/4}, e >= 0 *)
+  Definition den4 (c : q4) : R := den R rO rI radd rmul ropp w c.             (* a + b w + c w^2 - d w^3 *)
+
+  Definition vsum (vals : var -> Z) (vs : list var) : Z := zsum (map vals vs).          (* sum(vals[v] for v in vs) *)
+  Definition side_sum (vals : var -> Z) (s : pside) : Z := b2z (fst s) + vsum vals (snd s).   (* with vals["1"] = 1 *)
+  Definition dy_value (d : dyadic) : R := rmul (den4 (dy_c d)) (pow2 (- dy_k d)).       (* DyadicNumber.to_complex *)
+  Fixpoint afac_value (f : afac) : R :=
+    match f with AOne => rI | AOpaque i => opq i | ARot g n d => rmul (afac_value g) (cexp n d) end.
+
+  Definition node_value (vals : var -> Z) (t : Z * list var) : R :=            (* 1 + cexp(const + sum) *)
+    radd rI (cexp4 (fst t + 4 * vsum vals (snd t))).
+  Definition pair_value (vals : var -> Z) (pp : spider_pair) : R :=            (* 1 + cexp(psi) + cexp(phi) - cexp(psi + phi) *)
+    let psi := sp_alpha pp + 4 * vsum vals (sp_A pp) in
+    let phi := sp_beta pp + 4 * vsum vals (sp_B pp) in
+    rsub (radd (radd rI (cexp4 psi)) (cexp4 phi)) (cexp4 (psi + phi)).
+  Definition halfpi_value (vals : var -> Z) (c : Z) (vs : list var) : R :=     (* cexp((sum % 2) * c / 2) *)
+    cexp4 (2 * (c * (vsum vals vs mod 2))).
+  Definition pipair_value (vals : var -> Z) (pq : pside * pside) : R :=        (* cexp(psi * phi) *)
+    cexp4 (4 * (side_sum vals (fst pq) * side_sum vals (snd pq))).
+
+  Definition scalar_value (vals : var -> Z) (g : scalar) : R :=
+    if s_is_zero g then rO else
+    rmul (rmul (rmul (rmul (rmul (rmul (rmul
+      (rprodl (map (node_value vals) (s_phasenodes g)))
+      (rprodl (map (pair_value vals) (s_phasepairs g))))
+      (rmul (rprodl (map (halfpi_value vals 1) (s_halfpi1 g))) (rprodl (map (halfpi_value vals 3) (s_halfpi3 g)))))
+      (rprodl (map (pipair_value vals) (s_pi_pair g))))
+      (cexp (s_phase_n g) (s_phase_d g)))
+      (sqrt2pow (s_power2 g)))
+      (dy_value (s_floatfactor g)))
+      (afac_value (s_approx g)).
+End ScalarValue.
+
+(* what compile_scalar_graphs accepts without raising, and pyzx's invariants the model relies on *)
+Definition vars_ok (ps vs : list var) : Prop := NoDup vs /\ incl vs ps.             (* a set of names, all in params *)
+Definition byte (k : Z) : Prop := 0 <= k < 256.                                     (* fits the uint8 table *)
+Record wf_scalar (ps : list var) (g : scalar) : Prop := mkWf {
+  wf_nodes : Forall (fun t => byte (fst t) /\ vars_ok ps (snd t)) (s_phasenodes g);
+  wf_pairs : Forall (fun pp => byte (sp_alpha pp) /\ byte (sp_beta pp) /\ vars_ok ps (sp_A pp) /\ vars_ok ps (sp_B pp)) (s_phasepairs g);
+  wf_hp1 : Forall (vars_ok ps) (s_halfpi1 g);
+  wf_hp3 : Forall (vars_ok ps) (s_halfpi3 g);
+  wf_pi : Forall (fun pq => vars_ok ps (snd (fst pq)) /\ vars_ok ps (snd (snd pq))) (s_pi_pair g);
+  wf_phase : 0 <= s_phase_n g /\ (forall m, quarter_den (s_phase_d g) = Some m -> s_phase_n g * m < 8);   (* phase in [0, 2) *)
+  wf_float : dy_c (s_floatfactor g) <> q4_zero                                      (* DyadicNumber(0,0,0,0) cannot be constructed *)
+}.
